@@ -76,6 +76,8 @@ OpRetain(ts, keep, w) ==
   LET r == RetainLoop(ts, 1, keep, w, {}) IN
   Res(<<"unit">>, r.post, {e.kt : e \in r.gone}, {e.vt : e \in r.gone})
 OpClear(ts) == Res(<<"unit">>, <<>>, KTags(ts), VTags(ts))
+\* ctors.rs:68-74  Drop for Map: every live slot is destroyed; the step continues with a new empty container
+OpDrop(ts) == Res(<<"unit">>, <<>>, KTags(ts), VTags(ts))
 
 \* ------------------------------------------------------------- cursors --
 BorrowKinds  == {"iter", "iter_mut", "keys", "values", "values_mut"}
@@ -305,6 +307,8 @@ Apply(ts, cap, op) ==
     [] op.name = "remove_entry"     -> OpRemoveEntry(ts, op.c)
     [] op.name = "retain"           -> OpRetain(ts, op.keep, op.w)
     [] op.name = "clear"            -> OpClear(ts)
+    [] op.name = "drop"             -> OpDrop(ts)
+    [] op.name = "s_drop"           -> NoV(OpDrop(ts))
     [] op.name = "drain"            -> OpDrain(ts, op.n, op.end)
     [] op.name = "cursor" /\ op.kind \in BorrowKinds  -> OpBorrowCursor(ts, op.kind, op.n, op.w)
     [] op.name = "cursor" /\ op.kind \in ConsumeKinds -> OpConsumeCursor(ts, op.kind, op.n, op.end)
